@@ -407,3 +407,65 @@ def check_same_local_stored_and_returned(ctx, rid, fn, callee, arg_index):
     run.instance(rid, {"fn": pp.short(fn.id), "obligation": "between update_stored_tx and return the slate's tx is not written nor lent mutably", "violations": [str(x) for x in bad]}, held=held)
     if not held:
         run.finding(Finding(rid, fn.id, "returned slate may be modified after it was stored", site=":".join(bad[0][1].split(":")[:2]), detail=str(bad)))
+
+
+# ---------------------------------------------------------------------------
+# interprocedural backward slice of a parameter
+
+
+def callers_of(ctx, fid):
+    """[(caller Fn, bb, term)] of production call sites that may invoke fid."""
+    from .callgraph import non_production
+
+    out = []
+    for caller in ctx.cg.callers(fid):
+        if non_production(caller):
+            continue
+        f = ctx.db.fns[caller]
+        for b, t in f.calls():
+            if any(c == fid for c, _k in ctx.cg.targets_of_call(t)):
+                out.append((f, b, t))
+    return out
+
+
+def backward_param_slice(ctx, fid, param, max_depth=8, type_filter=None):
+    """Follow parameter `param` (1-based local index) of function fid back
+    through production call sites (and closure captures). Yields (chain,
+    fn, bb, site_span, origins) for every site reached; chain is the list of
+    (function id, param) from the sink upward. type_filter(type string)
+    restricts which caller parameters are followed further."""
+    seen = set()
+    work = [((fid, param), [(fid, param)])]
+    db = ctx.db
+
+    def follow(f, o, chain):
+        for x in o:
+            if x[0] == "arg":
+                ty = f.locals[x[1]]["ty"]
+                if type_filter is None or type_filter(ty):
+                    work.append(((f.id, x[1]), chain + [(f.id, x[1])]))
+
+    while work:
+        (g, p), chain = work.pop()
+        if (g, p) in seen or len(chain) > max_depth:
+            continue
+        seen.add((g, p))
+        for f, b, t in callers_of(ctx, g):
+            if p - 1 >= len(t["a"]):
+                continue
+            o = origins(f, t["a"][p - 1])
+            yield chain, f, b, t["sp"], o
+            follow(f, o, chain)
+            # closure captures: continue in the creating function
+            for x in o:
+                if x[0] == "field" and x[1] == f.id and f.parent in db.fns and x[2].isdigit():
+                    par = db.fns[f.parent]
+                    for pb, pbb in enumerate(par.bbs):
+                        for s in pbb["s"]:
+                            if s["k"] == "a" and s["r"]["k"] == "agg" and s["r"].get("adt") == f.id:
+                                ops = s["r"]["f"]
+                                i = int(x[2])
+                                if i < len(ops):
+                                    po = origins(par, ops[i][1])
+                                    yield chain + [(f.id, "capture %s" % x[2])], par, pb, s["sp"], po
+                                    follow(par, po, chain + [(f.id, 0)])
